@@ -30,7 +30,7 @@ func main() {
 	// instead of eating the machine if something leaks
 	debug.SetMemoryLimit(1200 << 20)
 	debug.SetGCPercent(25)
-	asLimit := uint64(8) << 30
+	asLimit := uint64(16) << 30
 	if v, err := strconv.ParseUint(os.Getenv("VERIF_C20_AS_LIMIT"), 10, 64); err == nil && v > 0 {
 		asLimit = v
 	}
